@@ -257,6 +257,11 @@ func (flogs *fileLogs) ReadAll(dataID, version dvid.UUID) ([]storage.LogMessage,
 			entryType := binary.LittleEndian.Uint16(data[pos : pos+2])
 			size := int64(binary.LittleEndian.Uint32(data[pos+2 : pos+6]))
 			pos += 6
+			if int64(len(data)) < pos+size {
+				// torn tail record (crash between header and payload write): drop it.
+				dvid.Criticalf("truncated record in filelog %q at position %d: %d of %d payload bytes\n", filename, pos-6, int64(len(data))-pos, size)
+				break
+			}
 			databuf := data[pos : pos+size]
 			pos += size
 			msg := storage.LogMessage{EntryType: entryType, Data: databuf}
@@ -315,15 +320,20 @@ func (flogs *fileLogs) StreamAll(dataID, version dvid.UUID, ch chan storage.LogM
 	f.Close()
 
 	if len(data) > 0 {
-		var pos uint32
+		var pos int64
 		for {
-			if len(data) < int(pos+6) {
+			if int64(len(data)) < pos+6 {
 				dvid.Criticalf("malformed filelog %q at position %d\n", filename, pos)
 				break
 			}
 			entryType := binary.LittleEndian.Uint16(data[pos : pos+2])
-			size := binary.LittleEndian.Uint32(data[pos+2 : pos+6])
+			size := int64(binary.LittleEndian.Uint32(data[pos+2 : pos+6]))
 			pos += 6
+			if int64(len(data)) < pos+size {
+				// torn tail record (crash between header and payload write): drop it.
+				dvid.Criticalf("truncated record in filelog %q at position %d: %d of %d payload bytes\n", filename, pos-6, int64(len(data))-pos, size)
+				break
+			}
 			databuf := data[pos : pos+size]
 			pos += size
 			ch <- storage.LogMessage{EntryType: entryType, Data: databuf}
